@@ -61,7 +61,9 @@ func (p *GoProg) applyInline() {
 }
 
 // helperOf: the declaration of a new (non-reference) package-local function called by call, or nil.
-func (in *inliner) helperOf(call *ast.CallExpr) *ast.FuncDecl {
+func (in *inliner) helperOf(call *ast.CallExpr) *ast.FuncDecl { return in.helperOfOpt(call, false) }
+
+func (in *inliner) helperOfOpt(call *ast.CallExpr, goBody bool) *ast.FuncDecl {
 	fn, ok := in.p.Callee(call).(*types.Func)
 	if !ok || fn.Pkg() != in.p.Pkg.Types {
 		return nil
@@ -84,7 +86,11 @@ func (in *inliner) helperOf(call *ast.CallExpr) *ast.FuncDecl {
 	bad := false
 	ast.Inspect(fd.Body, func(n ast.Node) bool {
 		switch x := n.(type) {
-		case *ast.DeferStmt, *ast.GoStmt, *ast.FuncLit, *ast.LabeledStmt, *ast.SelectStmt:
+		case *ast.SelectStmt, *ast.DeferStmt:
+			if !goBody { // as the body of a goroutine the helper is taken whole: select and defer keep their meaning
+				bad = true
+			}
+		case *ast.GoStmt, *ast.FuncLit, *ast.LabeledStmt:
 			bad = true
 		case *ast.BranchStmt:
 			if x.Tok == token.GOTO || x.Label != nil {
@@ -572,6 +578,14 @@ func (in *inliner) expandIn(caller *ast.FuncDecl) {
 		var out []ast.Stmt
 		for i := 0; i < len(list); i++ {
 			st := list[i]
+			// go h(a…)  →  go func() { body[p:=a] }()  when capturing is the same as passing: every argument is built
+			// from constants, addresses and variables that are never assigned again after their definition
+			if gs, ok := st.(*ast.GoStmt); ok {
+				if g := in.expandGo(gs, caller); g != nil {
+					out = append(out, g)
+					continue
+				}
+			}
 			// label: x = h(…)  —  the label stays on an empty statement, the call is expanded behind it
 			if ls, ok := st.(*ast.LabeledStmt); ok {
 				if _, isEmpty := ls.Stmt.(*ast.EmptyStmt); !isEmpty {
@@ -2316,4 +2330,107 @@ func stripRedundantParens(root ast.Node) {
 		}
 		return true
 	})
+}
+
+func (in *inliner) expandGo(gs *ast.GoStmt, caller *ast.FuncDecl) ast.Stmt {
+	p := in.p
+	h := in.helperOfOpt(gs.Call, true)
+	if h == nil || h == caller || (h.Type.Results != nil && len(h.Type.Results.List) > 0) {
+		return nil
+	}
+	stable := true
+	for _, a := range gs.Call.Args {
+		if !p.pureExpr(a) {
+			return nil
+		}
+		addrOf := map[*ast.Ident]bool{}
+		ast.Inspect(a, func(n ast.Node) bool {
+			if u, ok := n.(*ast.UnaryExpr); ok && u.Op == token.AND {
+				if id, ok := ast.Unparen(u.X).(*ast.Ident); ok {
+					addrOf[id] = true // &x: the same address either way
+				}
+			}
+			return true
+		})
+		ast.Inspect(a, func(n ast.Node) bool {
+			id, ok := n.(*ast.Ident)
+			if !ok || addrOf[id] {
+				return true
+			}
+			v, isVar := p.Info.Uses[id].(*types.Var)
+			if !isVar || v.IsField() {
+				return true
+			}
+			nAsg := 0
+			// the innermost loop around the go statement: a variable declared inside its body is a new one in every
+			// round, so only assignments *behind* the go statement count for it
+			var loopBody *ast.BlockStmt
+			ast.Inspect(caller.Body, func(m ast.Node) bool {
+				var b *ast.BlockStmt
+				switch x := m.(type) {
+				case *ast.ForStmt:
+					b = x.Body
+				case *ast.RangeStmt:
+					b = x.Body
+				}
+				if b != nil && b.Pos() <= gs.Pos() && gs.End() <= b.End() {
+					loopBody = b
+				}
+				return true
+			})
+			perRound := loopBody != nil && loopBody.Pos() <= v.Pos() && v.Pos() < loopBody.End()
+			ast.Inspect(caller.Body, func(m ast.Node) bool {
+				if perRound && m != nil && m.End() <= gs.Pos() {
+					return false // in front of the go statement, same round
+				}
+				switch x := m.(type) {
+				case *ast.AssignStmt:
+					for _, l := range x.Lhs {
+						if li, ok := ast.Unparen(l).(*ast.Ident); ok && p.ObjOf(li) == types.Object(v) {
+							nAsg++
+							if perRound {
+								nAsg++
+							}
+						}
+					}
+				case *ast.IncDecStmt:
+					if li, ok := ast.Unparen(x.X).(*ast.Ident); ok && p.ObjOf(li) == types.Object(v) {
+						nAsg += 2
+					}
+				case *ast.RangeStmt:
+					for _, e := range []ast.Expr{x.Key, x.Value} {
+						if li, ok := e.(*ast.Ident); ok && p.ObjOf(li) == types.Object(v) {
+							nAsg += 2
+						}
+					}
+				case *ast.UnaryExpr:
+					if li, ok := ast.Unparen(x.X).(*ast.Ident); ok && x.Op == token.AND && p.ObjOf(li) == types.Object(v) {
+						nAsg += 2
+					}
+				}
+				return true
+			})
+			if nAsg > 1 {
+				stable = false
+			}
+			return true
+		})
+	}
+	if !stable {
+		return nil
+	}
+	cl, pre, ok := in.prepare(gs.Call, h, caller)
+	if !ok || len(pre) > 0 {
+		return nil
+	}
+	in.count++
+	body := &ast.BlockStmt{Lbrace: gs.Call.Pos(), Rbrace: gs.Call.End()}
+	for _, b := range h.Body.List {
+		body.List = append(body.List, cl.node(b).(ast.Stmt))
+	}
+	fl := &ast.FuncLit{Type: &ast.FuncType{Func: gs.Call.Pos(), Params: &ast.FieldList{}}, Body: body}
+	p.Info.Types[fl] = types.TypeAndValue{Type: types.NewSignatureType(nil, nil, nil, nil, nil, false)}
+	ncall := &ast.CallExpr{Fun: fl, Lparen: gs.Call.Lparen, Rparen: gs.Call.Rparen}
+	p.Info.Types[ncall] = types.TypeAndValue{Type: types.NewTuple()}
+	return &ast.GoStmt{Go: gs.Go, Call: ncall}
 }
